@@ -652,6 +652,98 @@ def _gen_live_states_case(rng: random.Random) -> dict:
     return g.case()
 
 
+def _gen_live_directed(rng: random.Random) -> dict:
+    """short histories: two or three directories, one or two uploads in a chosen state, ONE permission-revoking change
+    through a chosen path (settings entry dropped / users list edited / mode changed / friends / block list / API),
+    a settled point, the change undone, a settled point"""
+    w = rng.choice(['one', 'Two', 'café'])
+    files = ['a/x ' + w + '.mp3', 'b/y ' + w + '.mp3', 'b/in/z ' + w + '.ogg']
+    u = rng.randrange(3)
+    others = [x for x in range(3) if x != u]
+    g = _LiveGen(rng, files, ['a', 'b', 'b/in'])
+    kind = rng.choice(['drop', 'drop', 'drop-all', 'users', 'users', 'users', 'mode', 'friends', 'friends', 'blocked',
+                       'api-users', 'api-users', 'api-unshare', 'api-mode'])
+    g.api_only = kind.startswith('api-')
+    target = rng.choice(['b', 'b', 'b/in'])
+    f = 'b/y ' + w + '.mp3' if target == 'b' else 'b/in/z ' + w + '.ogg'
+    tmode = {'users': ('users', sorted([u] + rng.sample(others, rng.choice([0, 1, 2])))),
+             'api-users': ('users', sorted([u] + rng.sample(others, rng.choice([0, 1, 2])))),
+             'friends': ('friends', [])}.get(kind, rng.choice([('everyone', []), ('users', [u]), ('friends', [])]))
+    g.friends = sorted([u] + rng.sample(others, rng.choice([0, 1])))
+    g.ops.append(['sfriends', rng.choice(['assign', 'inplace']), list(g.friends)])
+    base = {'a': rng.choice([('everyone', []), ('friends', []), ('users', [u])]), target: tmode}
+    if target == 'b/in' and rng.random() < 0.5:
+        base['b'] = _gen_mode(rng)
+    if rng.random() < 0.5:
+        base = dict(reversed(list(base.items())))
+    if g.api_only:
+        for d, (m, us) in base.items():
+            g.shared[d] = (m, us)
+            g.ops.append(['share', d, m, list(us)])
+    else:
+        g.reload(base, style=rng.choice(['assign', 'inplace']))
+    g.settle()
+    spec = {'d': target, 'f': f[len(target) + 1:], 'var': 'exact'}
+    g.ops.append([rng.choice(['queue', 'treq']), u, spec])
+    g.uploads.append((u, spec))
+    for mth in rng.choice([[], [], ['initialize'], ['initialize', 'start_transferring'], ['pause'],
+                           ['initialize', 'start_transferring', 'pause']]):
+        g.ops.append(['meth', 0, mth])
+    if rng.random() < 0.4:
+        g.ops.append([rng.choice(['queue', 'treq']), u, {'d': 'a', 'f': 'x ' + w + '.mp3', 'var': 'exact'}])
+    if rng.random() < 0.5:
+        g.settle()
+    before = dict(g.shared)
+    style = rng.choice(['inplace', 'inplace', 'mixed', 'assign'])
+    undo: list = []
+    if kind == 'drop':
+        g.reload({d: v for d, v in g.shared.items() if d != target}, style)
+        undo = [lambda: g.reload(before, rng.choice(['inplace', 'assign']))]
+    elif kind == 'drop-all':
+        g.reload({}, style)
+        undo = [lambda: g.reload(before, rng.choice(['inplace', 'assign']))]
+    elif kind == 'users':
+        new = dict(g.shared)
+        new[target] = ('users', [x for x in tmode[1] if x != u])
+        g.reload(new, style)
+        undo = [lambda: g.reload(before, rng.choice(['inplace', 'mixed', 'assign']))]
+    elif kind == 'mode':
+        new = dict(g.shared)
+        new[target] = rng.choice([('users', others[:1]), ('users', [])])
+        g.reload(new, style)
+        undo = [lambda: g.reload(before, rng.choice(['inplace', 'mixed', 'assign']))]
+    elif kind == 'friends':
+        old = list(g.friends)
+        g.friends = [x for x in g.friends if x != u]
+        g.ops.append(['sfriends', rng.choice(['inplace', 'inplace', 'assign']), list(g.friends)])
+        undo = [lambda: g.ops.append(['sfriends', rng.choice(['inplace', 'assign']), old])]
+    elif kind == 'blocked':
+        g.blocked = {str(u): rng.choice([32, 32, 36, 63])}
+        g.ops.append(['sblocked', rng.choice(['inplace', 'inplace', 'assign']), dict(g.blocked)])
+        undo = [lambda: g.ops.append(['sblocked', rng.choice(['inplace', 'assign']), {}])]
+    elif kind == 'api-users':
+        if rng.random() < 0.5:       # the list object is known to the manager from an earlier update call
+            g.ops.append(['mode', target, 'users', list(tmode[1])])
+        g.ops.append(['mode', target, 'users', [x for x in tmode[1] if x != u], 'alias'])
+        undo = [lambda: g.ops.append(['mode', target, 'users', list(tmode[1])] + rng.choice([[], ['alias']]))]
+    elif kind == 'api-unshare':
+        g.ops.append(['unshare', target])
+        undo = [lambda: g.ops.append(['share', target, tmode[0], list(tmode[1])])]
+    elif kind == 'api-mode':
+        g.ops.append(['mode', target, 'users', others[:1]] + rng.choice([[], ['alias']]))
+        undo = [lambda: g.ops.append(['mode', target, tmode[0], list(tmode[1])] + rng.choice([[], ['alias']]))]
+    x = rng.random()
+    if x < 0.2:
+        g.wait(rng.choice([0.0, 0.3, 0.7]))
+        g.request(u, spec)
+    g.settle()
+    if rng.random() < 0.75:
+        for fn in undo:
+            fn()
+        g.settle()
+    return g.case()
+
+
 # ------------------------------------------------------------------------------------------------
 # implementation side
 # ------------------------------------------------------------------------------------------------
